@@ -55,14 +55,31 @@ def report_walk(ctx, trace, vs, monitors, mode):
         ctx.mismatch(fp, {"mode": mode, "monitor": mon, "walk": summarize(rec)})
 
 
-def run_model_arch(ctx, arch, mode_cfg, built):
-    """MC + replay of one Walker<Arch> configuration; returns (tlc result, replay report, trace path)."""
-    mod = {"amd64": "WalkerAmd64"}[arch]
-    mc = ctx.tlc(mod, mode_cfg, coverage="separate", required_actions=None, timeout=6000, out_name=mode_cfg)
-    if mc.violated:
-        raise core.ToolFailure("invariant %s of %s.tla is violated in the model (%s)" % (mc.violated, mod, mode_cfg))
-    trace = ctx.work / (mode_cfg + ".trace.ndjson")
-    rep = ctx.read_harness_report(ctx.harness("replay_walk", [arch, mc.out_path, trace], out_name=mode_cfg + ".replay.out", timeout=6000))
+# step-by-step walker models: key -> (TLA+ module, configuration stem, replay_walk arguments before the TLC output path)
+MODELS = {
+    "amd64": ("WalkerAmd64", "MC_WalkerAmd64", ["amd64"]),
+    "x86": ("WalkerX86", "MC_WalkerX86", ["x86"]),
+    "arm-ios": ("WalkerArm", "MC_WalkerArm_arm_ios", ["arm", "ios"]),
+    "arm-linux": ("WalkerArm", "MC_WalkerArm_arm_linux", ["arm", "linux"]),
+    "arm64": ("WalkerArm", "MC_WalkerArm_arm64_linux", ["arm64", "linux"]),
+    "arm64old": ("WalkerArm", "MC_WalkerArm_arm64_linux", ["arm64old", "linux"]),
+}
+
+
+def run_model_arch(ctx, arch, mode_cfg, built, reuse=None):
+    """MC + replay of one walker configuration; returns (tlc result, replay report, trace path).
+    arch is a key of MODELS; mode_cfg names the configuration (None: <stem>_<any|built>[_thorough])."""
+    mod, stem, hargs = MODELS[arch]
+    if mode_cfg is None:
+        mode_cfg = "%s_%s%s" % (stem, "built" if built else "any", "_thorough" if ctx.tier == "thorough" else "")
+    if reuse is not None:
+        mc = reuse
+    else:
+        mc = ctx.tlc(mod, mode_cfg, coverage="separate", required_actions=None, timeout=6000, out_name=mode_cfg)
+        if mc.violated:
+            raise core.ToolFailure("invariant %s of %s.tla is violated in the model (%s)" % (mc.violated, mod, mode_cfg))
+    trace = ctx.work / ("%s.%s.trace.ndjson" % (mode_cfg, arch))
+    rep = ctx.read_harness_report(ctx.harness("replay_walk", hargs + [mc.out_path, trace], out_name="%s.%s.replay.out" % (mode_cfg, arch), timeout=6000))
     return mc, rep, trace
 
 
@@ -70,7 +87,7 @@ def run(ctx):
     tier = ctx.tier
     ctx.build()
     nvec = words_selftest(ctx)
-    mc, rep, trace = run_model_arch(ctx, "amd64", "MC_WalkerAmd64_any" if tier == "quick" else "MC_WalkerAmd64_any_thorough", False)
+    mc, rep, trace = run_model_arch(ctx, "amd64", None, False)
     for a in WALK_ACTIONS:
         if mc.coverage.get(a, (0, 0))[1] == 0:
             raise core.ToolFailure("vacuous: action %s of WalkerAmd64 never taken" % a)
@@ -79,8 +96,30 @@ def run(ctx):
             raise core.ToolFailure("vacuous replay: no %s produced by the real walker" % need)
     if rep["drift"]:
         ctx.drift.extend([None] * rep["drift"])
+    others = {}
+    traces = []
+    last64 = None
+    for arch in ("x86", "arm-ios", "arm-linux", "arm64", "arm64old"):
+        mc2, rep2, trace2 = run_model_arch(ctx, arch, None, False, reuse=last64 if arch == "arm64old" else None)
+        if arch == "arm64":
+            last64 = mc2
+        for a in WALK_ACTIONS:
+            if a != "StopBound" and mc2.coverage.get(a, (0, 0))[1] == 0 and not (a == "StepFp" and arch == "arm-linux"):
+                raise core.ToolFailure("vacuous: action %s of %s never taken (%s)" % (a, MODELS[arch][0], arch))
+        for need in ("frame:cfi", "frame:scan"):
+            if rep2["classes"].get(need, 0) == 0:
+                raise core.ToolFailure("vacuous replay: no %s produced by the real %s walker" % (need, arch))
+        if rep2["drift"]:
+            ctx.drift.extend([None] * rep2["drift"])
+        others[arch] = {"tlc": mc2.as_dict(), "replayed": rep2["evaluations"], "classes": rep2["classes"], "disagreements": rep2["drift"]}
+        traces.append((arch, trace2))
     tvg, vg = walk_verdicts(ctx, trace, "walk_g")
     report_walk(ctx, trace, vg, C05_MON, "G")
+    gstates = 0
+    for arch, tr2 in traces:
+        tv2, v2 = walk_verdicts(ctx, tr2, "walk_g_" + arch)
+        report_walk(ctx, tr2, v2, C05_MON, "G")
+        gstates += tv2["total"]
     nrand = 1800 if tier == "quick" else 30000
     tr = ctx.harness("record_walk", [nrand], out_name="walk_v.ndjson", timeout=3000)
     tvv, vv = walk_verdicts(ctx, tr, "walk_v")
@@ -104,18 +143,20 @@ def run(ctx):
                 samples.append(summarize(o))
     cov = {
         "states": mc.distinct + tvg["states"] + tvv["states"], "transitions": mc.generated + tvg["transitions"] + tvv["transitions"],
-        "traces_validated_against_impl": rep["evaluations"] + tvv["total"],
+        "traces_validated_against_impl": rep["evaluations"] + tvv["total"] + sum(o["replayed"] for o in others.values()),
         "samples": samples, "exhaustive": False,
-        "evaluations": rep["evaluations"] + tvv["total"], "distinct_nontrivial": rep["distinct_nontrivial"],
-        "rule": "amd64 model: every stack of NW words over 8 candidate values x 27 contexts x 4 CFI rule shapes walked by the real walk_stack and "
-                "compared frame by frame with the model (non-trivial = instance with at least one recovered caller); all architectures: seeded random "
+        "evaluations": rep["evaluations"] + tvv["total"] + sum(o["replayed"] for o in others.values()), "distinct_nontrivial": rep["distinct_nontrivial"],
+        "rule": "amd64, x86 (STACK WIN frame data / FPO / STACK CFI, grand-callee parameter sizes), arm (iOS and Linux), arm64 and arm64-old models: every stack of NW words over the "
+                "candidate values x contexts x unwind rule shapes walked by the real walk_stack and compared frame by frame with the model: return address, sp, technique, "
+                "callee-saved register validity and values, parameter size (non-trivial = instance with at least one recovered caller); all architectures: seeded random "
                 "contexts / stack bytes / modules / symbol text, monitors evaluated by Trace_Walk on every call stack",
         "tlc": {"WalkerAmd64": mc.as_dict(), "Trace_Walk(G)": {k: v for k, v in tvg.items() if k != "out"}, "Trace_Walk(V)": {k: v for k, v in tvv.items() if k != "out"}},
-        "replay_classes": rep["classes"], "frames_by_arch_and_technique": per_arch, "words_selftest_vectors": nvec,
+        "replay_classes": rep["classes"], "other_models": others, "frames_by_arch_and_technique": per_arch, "words_selftest_vectors": nvec,
     }
     return ctx.finish("model_checking", cov, assumptions=[
         "C05 monitors as stated in Trace_Walk.tla; call adjustments 1 (x86, amd64), 2 (arm), 4 (arm64), 8 (mips); sp may repeat between the first two frames on arm / arm64 / mips only",
-        "a step-by-step model exists for amd64 (non-Windows) only; the other architectures are decided by the monitors on recorded walks",
+        "step-by-step models exist for amd64 (non-Windows), x86, arm and arm64 (both layouts); mips is decided by the monitors on recorded walks only",
+        "WalkerX86 mirrors the no-op STACK WIN register clear (finding recorded under C07) so that exact agreement can be demanded",
         "the frame bound is C03's subject and not judged here"])
 
 
